@@ -211,3 +211,81 @@ def same_table_guard(ctx, R, fi, column):
                            f"'{column}' is tested on {guard_tab} but read from {sorted(used)}: KeyError, or the wrong limit, when only one of "
                            "the tables has the column", fi.loc(c))
     return n
+
+
+def duplicate_operands(ctx, R, fis):
+    """`a and a`, `a or a`, `m1 & m1`, `m1 | m1`: one of two intended tests is missing (copy/paste slip); expected count zero"""
+    n = 0
+    for fi in fis:
+        for node in walk_no_nested(fi.node):
+            ops = None
+            if isinstance(node, ast.BoolOp):
+                ops = node.values
+            elif isinstance(node, ast.BinOp) and isinstance(node.op, (ast.BitAnd, ast.BitOr)):
+                ops = []
+
+                def flat(e, op=type(node.op)):
+                    if isinstance(e, ast.BinOp) and isinstance(e.op, op):
+                        flat(e.left)
+                        flat(e.right)
+                    else:
+                        ops.append(e)
+                flat(node)
+            if not ops or len(ops) < 2:
+                continue
+            n += 1
+            seen = {}
+            for o in ops:
+                t = norm(o, 400)
+                if len(t) > 8 and t in seen:
+                    ctx.ob(R, f"{fi.module.name}::{fi.qualname}::dup:{t[:60]}", False,
+                           f"`{norm(node, 120)}` tests `{t[:80]}` twice: the second operand was meant to be a different test, one condition is "
+                           "never examined", fi.loc(node))
+                seen[t] = o
+    return n
+
+
+def dup_sweep(ctx, R, modules, minimum=20):
+    """duplicate-operand lint over the functions of the named modules; fails closed when nothing was examined"""
+    ctx.rule(R, "no boolean / mask conjunction or disjunction tests the same operand twice (`a and a`, `m & m`): the second operand "
+                "was meant to be another test (the other end of a switch, the other column of a pair) - contradiction lint, expected "
+                "count zero in: " + ", ".join(m.split(".", 1)[1] for m in modules))
+    fis = []
+    for mn in modules:
+        fis += list(ctx.repo.module(mn).functions.values())
+    n = duplicate_operands(ctx, R, fis)
+    ctx.ob(R, "sweep::" + "+".join(m.rsplit(".", 1)[-1] for m in modules), n >= minimum,
+           f"{n} conjunctions / disjunctions examined" if n >= minimum else f"only {n} conjunctions found in the swept modules", "", nontrivial=False)
+    return n
+
+
+def both_switch_ends(ctx, R):
+    """a closed bus-bus switch fuses two buses only if both are in service: both implementations test both ends"""
+    ctx.rule(R, "bus fusing over closed bus-bus switches requires both ends in service: create_bus_lookup's mask tests "
+                "switch.bus and switch.element, the numba twin ds_create tests bus1 and bus2 (sibling agreement)")
+    fi = ctx.repo.func("pandapower.build_bus:create_bus_lookup")
+    m = [n for n in ast.walk(fi.node) if isinstance(n, ast.Assign) and isinstance(n.targets[0], ast.Name) and n.targets[0].id == "closed_bb_switch_mask"]
+    if not m:
+        raise_err = True
+        from ppsa.loader import AnalysisError
+        raise AnalysisError("create_bus_lookup: closed_bb_switch_mask not found")
+    t = norm(m[0].value, 2000).replace('"', "'")
+    cols = {c for c in ("bus", "element", "closed", "et") if f"['switch']['{c}']" in t}
+    isin_cols = set()
+    for c in ast.walk(m[0].value):
+        if isinstance(c, ast.Call) and last_attr(c) == "isin" and c.args:
+            a = norm(c.args[0]).replace('"', "'")
+            for col in ("bus", "element"):
+                if f"['{col}']" in a:
+                    isin_cols.add(col)
+    ok = cols == {"bus", "element", "closed", "et"} and isin_cols == {"bus", "element"}
+    ctx.ob(R, "pandapower.build_bus::create_bus_lookup::mask", ok,
+           "closed bus-bus switches with both ends in service" if ok else
+           f"the mask reads columns {sorted(cols)} and tests in-service membership of {sorted(isin_cols)} only: a switch to an out-of-service "
+           "bus fuses (or a valid one does not)", fi.loc(m[0]))
+    fd = ctx.repo.func("pandapower.build_bus:ds_create")
+    tests = [n for n in ast.walk(fd.node) if isinstance(n, ast.If) and "bus_in_service" in norm(n.test)]
+    ok = bool(tests) and all({"bus1", "bus2"} <= names_in(n.test) for n in tests)
+    ctx.ob(R, "pandapower.build_bus::ds_create::both-ends", ok,
+           "the numba path tests bus1 and bus2" if ok else "the numba path does not test the in-service state of both switch ends",
+           fd.loc(tests[0]) if tests else fd.loc())
